@@ -24,7 +24,14 @@ ParentsStr(S) == LET seq == SelectSeq(Names, LAMBDA n : n \in S) IN
                  IF Len(seq) = 0 THEN "" ELSE ": " \o (IF Len(seq) = 1 THEN seq[1] ELSE IF Len(seq) = 2 THEN seq[1] \o ", " \o seq[2] ELSE seq[1] \o ", " \o seq[2] \o ", " \o seq[3])
 GraphSrc(g) == "class A" \o ParentsStr(g[1]) \o "\nclass B" \o ParentsStr(g[2]) \o "\nclass C" \o ParentsStr(g[3]) \o "\ndef x := A()\ndef y: B := C()\n"
 
+\* diagnostics ON tokens that span lines (the end column may lie left or right of the start column): every fault template around
+\* every multi-line token
+MLTokens == { "\"Hello,\nworld\"", "\"a\n" \o Rep(" ", 40) \o "b\"", "\"\"\"doc\nmore\"\"\"", "\"x {1}\ny\"", "\"\n\"", "\"a\n\nb\"", "\"{1\n}\"" }
+OnMultiLine == UNION { { "def g: Int := " \o tk, "print(1 + " \o tk \o ")", "def f(x: Int) => x\nf(" \o tk \o ")", "def x := " \o tk \o " )", "def x := " \o tk \o " +",
+                         tk \o ".undefined_method()", "def x: Str := " \o tk \o "\ndef y: Int := x", "if " \o tk \o " then print(1)", Rep(" ", 30) \o "def g: Int := " \o tk,
+                         "class A\n    def m(self) -> Int => " \o tk, "def f() -> Int => " \o tk \o "\nf()", "raise " \o tk, "for i in " \o tk \o " do print(i + 1)" } : tk \in MLTokens }
 Shapes ==
+   OnMultiLine \cup
    { Rep("(", n) \o "1" \o Rep(")", n) : n \in {1, 2, 4, 8, 12} }
    \cup { "def x := " \o Rep("[", n) \o "1" \o Rep("]", n) : n \in {1, 2, 4, 8, 12} }
    \cup { "def x := " \o Rep("(", n) \o "1 + " : n \in {1, 3} } \cup { Rep(")", n) : n \in {1, 3} }
